@@ -1,6 +1,7 @@
 //! Correspondence harness: generates cases, runs the real implementation in-process and writes
 //! one line per case: `op<TAB>args…<TAB>=><TAB>answer`.
 mod common;
+mod c01;
 mod c10;
 mod c05;
 mod c04;
@@ -50,6 +51,7 @@ fn main() {
             "C04" => c04::generate(&mut ctx),
             "C05" => c05::generate(&mut ctx),
             "C10" => c10::generate(&mut ctx),
+            "C01" => c01::generate(&mut ctx),
             _ => {
                 eprintln!("unknown property {prop}");
                 std::process::exit(2);
@@ -69,5 +71,5 @@ fn dispatch_replay(ctx: &mut Ctx, f: &[&str]) -> bool {
     if f.is_empty() {
         return false;
     }
-    c19::replay(ctx, f) || c09::replay(ctx, f) || c02::replay(ctx, f) || c13::replay(ctx, f) || c04::replay(ctx, f) || c05::replay(ctx, f) || c10::replay(ctx, f)
+    c19::replay(ctx, f) || c09::replay(ctx, f) || c02::replay(ctx, f) || c13::replay(ctx, f) || c04::replay(ctx, f) || c05::replay(ctx, f) || c10::replay(ctx, f) || c01::replay(ctx, f)
 }
